@@ -1492,6 +1492,12 @@ func genC17(g *G, sc *Scenario, tier string, seed uint64) {
 		return
 	}
 	sc.Ops = append(sc.Ops, Op{K: "batch", DS: "srcA", Ents: ents})
+	if g.P(0.15) {
+		// the hub is stopped and started between the job's definition and its first run: the runs are those of the
+		// definition as it was loaded from the store
+		sc.Ops = append(sc.Ops, Op{K: "restart", N: 1})
+		sc.Note += " restart-before-first-run"
+	}
 	if !killed && !big && jobType == "incremental" && intOf(spec, "rejectTimes") == 1 && len(rej) > 0 && g.P(0.5) {
 		// the source corrects an entity the sink turns down once: the run meets the id twice, the first time rejected,
 		// the second time acceptable
